@@ -450,6 +450,142 @@ def rule_r5(chk, p, t):
     memo_rule(chk, p, t, "C12.R5", modules=("resonaate.physics.orbits",), floor=40, what="the orbital element / anomaly conversion modules (physics.orbits)")
 
 
+def rule_r6(chk, p, t):
+    from rsa import ratfun as rf
+    from rsa.terms import NotEvaluable, returned_exprs
+
+    r = chk.rule(
+        "C12.R6",
+        "classical <-> equinoctial: definition on every path and quadrant agreement of the inverse",
+        2,
+        "coe2eqe returns, on every path and as a function of its PARAMETERS (local rebinding substituted), (a, e sin(w + I W), "
+        "e cos(w + I W), tan^I(i/2) sin W, tan^I(i/2) cos W, trueAnom2MeanLong(f, e, W, w, retro)) - Danielson 2.1.2 - so no "
+        "input angle is dropped or replaced before it enters the defined sums; eqe2coe recovers W as atan2(p, q) and w as "
+        "atan2(h, k) - I W (sine-carrying component first), e and i through their helpers, the anomaly from the SAME raan / "
+        "argp it just recovered, and finishes with singularityCheck",
+        "round trips as numbers",
+    )
+    CONV = "resonaate.physics.orbits.conversions"
+    f = p.func(f"{CONV}.coe2eqe")
+
+    def fwd():
+        try:
+            rets = returned_exprs(f)
+        except NotEvaluable as e:
+            raise Undecided(f"coe2eqe: {e}", f.node)
+        sma, ecc, inc, raan, argp, ta = f.params[:6]
+        retro = f.params[6] if len(f.params) > 6 else "retro"
+        require(rets, "coe2eqe: no return", f.node)
+        n_ok = 0
+        for e, conds in rets:
+            require(isinstance(e, ast.Tuple) and len(e.elts) == 6, "coe2eqe does not return a 6-tuple", f.node)
+            # the retro switch: II = 1 if not retro else -1 -> split by returned_exprs; read the polarity from conds
+            ii = None
+            for c, pol in conds:
+                txt = unparse(c)
+                if txt == f"not {retro}":
+                    ii = 1 if pol else -1
+                elif txt == retro:
+                    ii = -1 if pol else 1
+            if ii is None:
+                # II kept symbolic
+                ii_src = f"(1 if not {retro} else -1)"
+                raise Undecided(f"coe2eqe: path without a decided retrograde switch ({ii_src})", f.node)
+            I = "1" if ii == 1 else "-1"
+            tanf = f"tan({inc} * 0.5)" if ii == 1 else f"1 / tan({inc} * 0.5)"
+            want = [
+                sma,
+                f"{ecc} * sin({argp} + {I} * {raan})",
+                f"{ecc} * cos({argp} + {I} * {raan})",
+                f"{tanf} * sin({raan})",
+                f"{tanf} * cos({raan})",
+            ]
+            bad = []
+            other = [(c, pol) for c, pol in conds if unparse(c) not in (retro, f"not {retro}")]
+            for i, w in enumerate(want):
+                got = e.elts[i]
+                try:
+                    same = rf.rat_equal(rf.ratfun(got, subst={"II": rf.parse(I)}), rf.ratfun(rf.parse(w)))
+                except NotEvaluable:
+                    same = False
+                if not same:
+                    bad.append(f"element {i} = `{unparse(got)[:80]}` (Danielson 2.1.2: `{w}`)")
+            ml = e.elts[5]
+            ok_ml = isinstance(ml, ast.Call) and call_name(ml) == "trueAnom2MeanLong" and [unparse(a) for a in ml.args] == [ta, ecc, raan, argp] and {k.arg: unparse(k.value) for k in ml.keywords} == {"retro": retro}
+            if not ok_ml:
+                bad.append(f"mean longitude = `{unparse(ml)[:90]}` (expected trueAnom2MeanLong({ta}, {ecc}, {raan}, {argp}, retro={retro}))")
+            cons = f"{f.qualname}:{'retrograde' if ii < 0 else 'direct'}" + (":" + ";".join(f"{unparse(c)[:30]}={pol}" for c, pol in other) if other else "")
+            if bad:
+                r.violation(cons, "coe2eqe:" + ";".join(b[:50] for b in bad), "coe2eqe deviates from the equinoctial definition" + (f" on the path where {', '.join(unparse(c) + ' is ' + str(pol) for c, pol in other)}" if other else "") + ": " + "; ".join(bad) + " - an input angle that is replaced before it enters the sums w + I W / W changes h, k, p, q and the longitude for every orbit taking that path", f.loc())
+            else:
+                n_ok += 1
+                r.ok(cons, "Danielson 2.1.2 as a function of the parameters", f.loc(), obligations=6)
+
+    r.guard(f.qualname, fwd)
+    g = p.func(f"{CONV}.eqe2coe")
+
+    def inv():
+        from rsa.terms import single_defs
+
+        defs = {}
+        order = []
+        for n in walk_no_nested(g.node):
+            if isinstance(n, ast.Assign) and len(n.targets) == 1:
+                tg = n.targets[0]
+                if isinstance(tg, ast.Name):
+                    defs.setdefault(tg.id, []).append(n.value)
+                    order.append((tg.id, n))
+                elif isinstance(tg, ast.Tuple):
+                    for x in tg.elts:
+                        if isinstance(x, ast.Name):
+                            defs.setdefault(x.id, []).append(n.value)
+                            order.append((x.id, n))
+        _ = single_defs
+        sma, h, k, pp, q, ml = g.params[:6]
+        retro = g.params[6] if len(g.params) > 6 else "retro"
+        bad = []
+
+        def first(name):
+            v = defs.get(name, [])
+            return v[0] if v else None
+
+        ra = first("raan")
+        if not (isinstance(ra, ast.Call) and call_name(ra) in ("arctan2", "atan2") and [unparse(a) for a in ra.args] == [pp, q]):
+            bad.append(f"raan = `{unparse(ra)[:60] if ra is not None else None}` (p = tan^I(i/2) sin W carries the sine: arctan2({pp}, {q}))")
+        ap = first("argp")
+        ok_ap = False
+        if isinstance(ap, ast.BinOp) and isinstance(ap.op, ast.Sub) and isinstance(ap.left, ast.Call) and call_name(ap.left) in ("arctan2", "atan2") and [unparse(a) for a in ap.left.args] == [h, k]:
+            try:
+                ok_ap = rf.rat_equal(rf.ratfun(ap.right), rf.ratfun(rf.parse("II * raan")))
+            except Exception:
+                ok_ap = False
+        if not ok_ap:
+            bad.append(f"argp = `{unparse(ap)[:70] if ap is not None else None}` (h = e sin(w + I W) carries the sine: arctan2({h}, {k}) - II * raan)")
+        ii = first("II")
+        if ii is None or unparse(ii) not in (f"1 if not {retro} else -1", f"-1 if {retro} else 1"):
+            bad.append(f"II = `{unparse(ii) if ii is not None else None}`")
+        ec, ic = first("ecc"), first("inc")
+        if not (isinstance(ec, ast.Call) and call_name(ec) == "getEccentricityFromEQE" and [unparse(a) for a in ec.args] == [h, k]):
+            bad.append(f"ecc = `{unparse(ec)[:60] if ec is not None else None}`")
+        if not (isinstance(ic, ast.Call) and call_name(ic) == "getInclinationFromEQE" and [unparse(a) for a in ic.args] == [pp, q] and {kk.arg: unparse(kk.value) for kk in ic.keywords} == {"retro": retro}):
+            bad.append(f"inc = `{unparse(ic)[:60] if ic is not None else None}`")
+        tav = first("true_anom")
+        if not (isinstance(tav, ast.Call) and call_name(tav) == "meanLong2TrueAnom" and [unparse(a) for a in tav.args] == [ml, "ecc", "raan", "argp"] and {kk.arg: unparse(kk.value) for kk in tav.keywords} == {"retro": retro}):
+            bad.append(f"true anomaly = `{unparse(tav)[:80] if tav is not None else None}` (expected meanLong2TrueAnom({ml}, ecc, raan, argp, retro={retro}))")
+        rets = [n for n in walk_no_nested(g.node) if isinstance(n, ast.Return) and n.value is not None]
+        sc = [n for n in walk_no_nested(g.node) if isinstance(n, ast.Assign) and isinstance(n.value, ast.Call) and call_name(n.value) == "singularityCheck"]
+        if not (len(sc) == 1 and [unparse(a) for a in sc[0].value.args] == ["ecc", "inc", "raan", "argp", "true_anom"] and unparse(sc[0].targets[0]) == "(raan, argp, true_anom)"):
+            bad.append("the recovered angles do not pass through singularityCheck(ecc, inc, raan, argp, true_anom) -> (raan, argp, true_anom)")
+        if not (len(rets) == 1 and unparse(rets[0].value) == f"({sma}, ecc, inc, raan, argp, true_anom)"):
+            bad.append(f"return `{unparse(rets[0].value)[:70] if rets else None}`")
+        if bad:
+            r.violation(g.qualname, "eqe2coe:" + ";".join(b[:50] for b in bad), "eqe2coe does not invert coe2eqe: " + "; ".join(bad), g.loc())
+        else:
+            r.ok(g.qualname, "W = atan2(p, q), w = atan2(h, k) - I W, anomaly from the recovered angles, singularityCheck last", g.loc(), obligations=7)
+
+    r.guard(g.qualname, inv)
+
+
 def run(chk, p, t):
     chk.explanation = (
         "Static decision of a narrow set of structural necessary conditions of C12: (R1) the four places that split "
@@ -461,7 +597,7 @@ def run(chk, p, t):
         "as numbers, Newton convergence of Kepler's equation."
     )
     chk.assumptions += ["isInclined / isEccentric are the single threshold helpers (tolerances in physics/orbits/__init__.py)"]
-    for fn in (rule_r1, rule_r2, rule_r3, rule_r4, rule_r5):
+    for fn in (rule_r1, rule_r2, rule_r3, rule_r4, rule_r5, rule_r6):
         rid = "C12.R" + fn.__name__[-1]
         if not chk.wants(rid):
             continue
